@@ -7,6 +7,7 @@ import Driver.Mux
 import Driver.Dict
 import Driver.SM
 import Driver.Conn
+import Driver.Alias
 /-!
   Driver — reads correspondence lines `domain op args… => impl-output` on stdin and prints,
   per line, tab-separated: index, agree|DISAGREE|BADLINE, Spec verdicts (comma separated or
@@ -92,6 +93,16 @@ def handle (st : St) (idx : Nat) (line : String) : St × String :=
     | "retry" :: "write" :: rest =>
       (match (kv rest "b").bind fromHex with
        | some b => (st, emit idx impl (judgeRetry ((kvNat rest "r").getD 0) (parseOutcomes ((kv rest "outs").getD "-")) b implToks))
+       | none => bad)
+    | "alias" :: "leaf" :: rest =>
+      (match (kv rest "p").bind (fun x => fromHex (x.drop 1).toString) with
+       | some p => (st, emit idx impl (judgeAliasLeaf ((kvNat rest "t").getD 0) p implToks))
+       | none => bad)
+    | "alias" :: "hist" :: rest =>
+      (match (kv rest "a").bind fromHex with
+       | some a =>
+         let nl := (((kv rest "later").getD "").splitOn ",").filter (· ≠ "") |>.length
+         (st, emit idx impl (judgeAliasHist dict a nl ((kv rest "g").getD "same") implToks))
        | none => bad)
     | "conn" :: "serve" :: rest =>
       (st, emit idx impl (judgeConn dict ((kvNat rest "n").getD 1) (kv rest "h" == some "mux") (kv rest "x" == some "1") ((kv rest "ev").getD "") implToks))
